@@ -1419,6 +1419,109 @@ pub fn cli_cross_check(sc: &Scenario, ex: &Exec) -> Option<Viol> {
     }
 }
 
+thread_local! {
+    /// interactive sessions actually run by this thread (as opposed to skipped)
+    static REPL_PERFORMED: std::cell::Cell<u64> = const { std::cell::Cell::new(0) };
+}
+
+/// Split what the interactive mode wrote to stdout into one segment per prompt.
+fn repl_segments(text: &str) -> Vec<String> {
+    let mut segs = vec![];
+    let mut rest = text;
+    while let Some(r) = rest.strip_prefix("> ") {
+        if r.starts_with("> ") {
+            segs.push(String::new());
+            rest = r;
+            continue;
+        }
+        match r.find("\n> ") {
+            Some(i) => {
+                segs.push(r[..i + 1].to_string());
+                rest = &r[i + 1..];
+            }
+            None => {
+                segs.push(r.to_string());
+                rest = "";
+            }
+        }
+    }
+    segs
+}
+
+/// The property's own setting - "any sequence of statements, including failing ones" - exists
+/// for a user only in the interactive mode (a script stops at its first failing statement).
+/// The whole session is typed into the real binary's interactive mode through a pseudo-terminal,
+/// followed by `output n` for every data binding and end-of-file; every statement must succeed
+/// or fail as it does in-process, and the emitted object must equal the in-process bindings.
+pub fn repl_cross_check(sc: &Scenario, ex: &Exec) -> Option<Viol> {
+    let cli = crate::c19::cli_path();
+    if !std::path::Path::new(&cli).exists() || sc.stmts.is_empty() {
+        return None;
+    }
+    // a session evaluated as one source text is parsed as a whole (one unparsable line fails
+    // every statement); the interactive mode parses line by line
+    if sc.file_style {
+        return None;
+    }
+    if ex.outcomes.len() != sc.stmts.len() || ex.snapshots.len() != sc.stmts.len() {
+        return None;
+    }
+    if ex.outcomes.iter().any(|o| matches!(o.status, Status::Panic | Status::NotRun) || o.call_steps > 150) {
+        return None;
+    }
+    let lines: Vec<String> = sc.stmts.iter().map(|s| show_stmt(&s.stmt)).collect();
+    for l in &lines {
+        // one terminal line holds 4 KiB; an unbalanced bracket makes the interactive mode wait
+        // for a continuation line; `quit` / `exit` / `help` are commands there
+        let bal = |a: char, b: char| l.matches(a).count() == l.matches(b).count();
+        if l.len() > 3900 || l.contains('\n') || !bal('(', ')') || !bal('[', ']') || !bal('{', '}') || matches!(l.trim(), "quit" | "exit" | "help") || l.contains("print(") {
+            return None;
+        }
+    }
+    let snap = ex.snapshots.last().unwrap();
+    let mut typed = lines.clone();
+    for k in snap.keys() {
+        typed.push(format!("output {}", k));
+    }
+    let rr = crate::cli::run_repl(&cli, &["-i".to_string(), sc.inputs_json.clone()], &typed)?;
+    REPL_PERFORMED.with(|c| c.set(c.get() + 1));
+    let stmt = sc.stmts.len() - 1;
+    let text = String::from_utf8_lossy(&rr.stdout).to_string();
+    let head = |s: &str| s.chars().take(300).collect::<String>();
+    if rr.exit != Some(0) {
+        return Some(Viol { clause: "repl-session-differs".into(), stmt, detail: format!("the session runs in-process but the interactive mode exits {:?} (signal {:?}): {}", rr.exit, rr.signal, head(&String::from_utf8_lossy(&rr.stderr))) });
+    }
+    let segs = repl_segments(&text);
+    if segs.len() != typed.len() + 1 {
+        return Some(Viol { clause: "repl-session-differs".into(), stmt, detail: format!("{} lines typed but {} prompts answered: {:?}", typed.len(), segs.len(), head(&text)) });
+    }
+    for (i, o) in ex.outcomes.iter().enumerate() {
+        let failed_there = segs[i].contains("[evaluation error]") || segs[i].contains("[parse error]");
+        if failed_there != o.status.failed() {
+            return Some(Viol {
+                clause: "repl-session-differs".into(),
+                stmt: i,
+                detail: format!("statement {} `{}` {} in-process but the interactive mode answers {:?}", i, head(&lines[i]), if o.status.failed() { "fails" } else { "succeeds" }, head(&segs[i])),
+            });
+        }
+    }
+    let last = segs.last().unwrap().lines().last().unwrap_or("");
+    match serde_json::from_str::<serde_json::Value>(last) {
+        Ok(serde_json::Value::Object(o)) => {
+            for (k, v) in snap {
+                match o.get(k) {
+                    Some(got) if got == v => {}
+                    other => {
+                        return Some(Viol { clause: "repl-session-differs".into(), stmt, detail: format!("{}: interactive mode emits {:?}, in-process binding {}", k, other, v) });
+                    }
+                }
+            }
+            None
+        }
+        _ => Some(Viol { clause: "repl-session-differs".into(), stmt, detail: format!("the interactive mode's last answer is not an outputs object: {:?}", head(last)) }),
+    }
+}
+
 // ---------------------------------------------------------------------------------------
 // Shrinking and replay
 // ---------------------------------------------------------------------------------------
@@ -1448,6 +1551,9 @@ pub fn shrink(sc: &Scenario, clause: &str, budget: &mut u64) -> Scenario {
         }
         *budget -= 1;
         let ex = execute(c);
+        if clause == "repl-session-differs" {
+            return ex.violation.is_none() && matches!(repl_cross_check(c, &ex), Some(v) if v.clause == clause);
+        }
         if clause == "cli-bindings-differ" {
             return ex.violation.is_none() && matches!(cli_cross_check(c, &ex), Some(v) if v.clause == clause);
         }
@@ -1653,7 +1759,7 @@ pub fn replay(path: &str) -> i32 {
     }
     let viol = match ex.violation.clone() {
         Some(v) => Some(v),
-        None => cli_cross_check(&sc, &ex),
+        None => cli_cross_check(&sc, &ex).or_else(|| repl_cross_check(&sc, &ex)),
     };
     crate::cli::cleanup_sandboxes();
     match viol {
@@ -1854,6 +1960,20 @@ pub fn run_one(seed: u64, run: u64, agg: &mut Batch, keep_hashes: bool) {
             agg.violations.push((run, sc.clone(), v, ex0.hash));
         }
     }
+    if ex0.violation.is_none() && run % 4 == 2 {
+        let before = REPL_PERFORMED.with(|c| c.get());
+        let v = repl_cross_check(&sc, &ex0);
+        if REPL_PERFORMED.with(|c| c.get()) > before {
+            agg.c.inc("repl_cross_checks");
+            agg.c.add("repl_statements_typed", sc.stmts.len() as u64);
+            agg.c.add("repl_failing_statements_typed", ex0.outcomes.iter().filter(|o| o.status.failed()).count() as u64);
+        } else {
+            agg.c.inc("repl_cross_checks_skipped");
+        }
+        if let Some(v) = v {
+            agg.violations.push((run, sc.clone(), v, ex0.hash));
+        }
+    }
     if ex0.violation.is_some() {
         // the fault-free run already violates: enumerate nothing further for this session
         if keep_hashes {
@@ -1930,7 +2050,7 @@ pub fn main_batch(tier: &str, sessions: u64) -> i32 {
         let mut budget = 1500u64;
         let min = shrink(sc, &v.clause, &mut budget);
         let ex = execute(&min);
-        let mv = ex.violation.clone().or_else(|| cli_cross_check(&min, &ex)).unwrap_or_else(|| v.clone());
+        let mv = ex.violation.clone().or_else(|| cli_cross_check(&min, &ex)).or_else(|| repl_cross_check(&min, &ex)).unwrap_or_else(|| v.clone());
         let sig = signature(&min, &mv);
         let name = format!("C03-{}-{}-{:08x}", seed, run, fnv64(sig.as_bytes()) as u32);
         let path = write_replay(&name, &replay_doc(&min, &mv, ex.hash, seed, *run, (sc.stmts.len(), sc.faults.len())));
@@ -1956,6 +2076,10 @@ pub fn main_batch(tier: &str, sessions: u64) -> i32 {
     extra.insert("distinct_hash_seeds".into(), json!(agg.c.distinct_count("hash_seeds")));
     extra.insert("seeds".into(), json!(agg.c.get("sessions")));
     extra.insert("cli_cross_checks".into(), json!(agg.c.get("cli_cross_checks")));
+    extra.insert("repl_cross_checks".into(), json!(agg.c.get("repl_cross_checks")));
+    extra.insert("repl_cross_checks_skipped".into(), json!(agg.c.get("repl_cross_checks_skipped")));
+    extra.insert("repl_statements_typed".into(), json!(agg.c.get("repl_statements_typed")));
+    extra.insert("repl_failing_statements_typed".into(), json!(agg.c.get("repl_failing_statements_typed")));
     {
         let mut rare = serde_json::Map::new();
         for (k, v) in &agg.c.n {
@@ -1969,9 +2093,11 @@ pub fn main_batch(tier: &str, sessions: u64) -> i32 {
     extra.insert(
         "real_vs_stub".into(),
         json!({
-            "real": ["blots-core parser", "AST conversion", "evaluator", "environment", "heap", "built-ins", "serialiser (from_value)", "validate_portable_value"],
-            "stub": ["statement loop (transcribed from blots/src/main.rs REPL loop)", "OS entropy (getrandom seam)", "clocks (clock_gettime seam)"],
-            "not_run": ["rustyline REPL front end", "blots-wasm"],
+            "real": ["blots-core parser", "AST conversion", "evaluator", "environment", "heap", "built-ins", "serialiser (from_value)", "validate_portable_value",
+                     "blots main.rs script path (a quarter of the sessions: successful prefix + `output n`, outputs compared with the in-process bindings)",
+                     "blots main.rs interactive loop (a quarter of the sessions that are evaluated statement by statement: the whole session, failing statements included, typed through a pseudo-terminal with TERM=dumb; per-statement success / failure and the final outputs compared with the in-process run)"],
+            "stub": ["statement loop of the in-process executions (transcribed from blots/src/main.rs REPL loop; cross-checked against the real loop as above)", "OS entropy (getrandom seam)", "clocks (clock_gettime seam)"],
+            "not_run": ["rustyline line editing (TERM=dumb: plain line reads)", "blots-wasm"],
         }),
     );
     if keep {
